@@ -139,11 +139,16 @@ def only_new_channel_left(before, after, name):
     """Region of finding F20: the only trace of the refused declare_channel is the (empty) channel itself
     (and the phase-reference table of its basis when it is the first channel of that basis)."""
     bs, as_ = before["schedule"], after["schedule"]
-    if set(as_) != set(bs) | {name} or name in bs:
+    extras = set(as_) - set(bs)
+    # (with an SLM mask configured before any channel, the first Ising channel also declares the mask's DMM: it stays as well)
+    dmms = {x for x in extras if x.startswith("dmm_")}
+    if name in bs or extras - dmms != {name} or set(bs) - set(as_):
         return False
     if as_[name]["slots"] or as_[name]["blocks"]:
         return False
-    terms = [l2.snap_equal({k: v for k, v in as_.items() if k != name}, bs),
+    if any(len(as_[x]["slots"]) > 1 or as_[x]["blocks"] for x in dmms):
+        return False
+    terms = [l2.snap_equal({k: v for k, v in as_.items() if k not in extras}, bs),
              l2.snap_equal(before["calls"], after["calls"]), l2.snap_equal(before["to_build_calls"], after["to_build_calls"]),
              # (the first channel of a sequence also switches it to Ising mode)
              l2.snap_equal({k: v for k, v in before["flags"].items() if k != "in_ising"}, {k: v for k, v in after["flags"].items() if k != "in_ising"})]
@@ -175,6 +180,9 @@ def _h_atomic(shape):
         for i, name in enumerate(shape["ops"]):
             op = op_library(str(i))[name]
             before = l2.snapshot(seq)
+            # region of finding F46: an SLM mask is configured and its DMM still waits for the first pulse of a Global channel
+            dmm_w = getattr(seq, "_slm_mask_dmm", None)
+            waiting = bool(dmm_w and dmm_w in seq._schedule and getattr(seq._schedule[dmm_w], "_waiting_for_first_pulse", False))
             try:
                 l2.run_op(inp, seq, op)
                 raised = None
@@ -186,6 +194,7 @@ def _h_atomic(shape):
                 obs.append((label, l2.snap_equal(before, after)))
                 inp.publish("only_delays_left_behind@" + label, only_fall_delay_left(before, after, False))
                 inp.publish("only_delays_and_eom_close_left_behind@" + label, only_fall_delay_left(before, after, True))
+                inp.publish("slm_mask_waiting_for_first_pulse@" + label, waiting)
                 if op[0] == "declare":
                     inp.publish("only_the_new_channel_left_behind@" + label, only_new_channel_left(before, after, op[1]))
         # the whole history (successes + failures) leaves a consistent object:
